@@ -75,6 +75,8 @@ def build_learner(spec):
         kw = dict(kw)
         kw["learners"] = [build_learner(s) for s in kw["learners"]]
         return cb.CorralLearner(**kw)
+    if kind == "misguided":
+        return cb.MisguidedLearner(build_learner(kw["learner"]), kw.get("shifter", 1), kw.get("scaler", -1))
     if kind == "counter":
         return K.CounterLearner(**kw)
     if kind == "pmf":
@@ -340,7 +342,12 @@ def gen_env_group(rng, idx, allow=("linear", "neighbors", "bandit", "tagged", "s
 
 
 def gen_learner(rng, idx):
-    k = weighted(rng, [("random", 2), ("eps", 3), ("ucb", 2), ("counter", 3), ("pmf", 3), ("kwargs", 1), ("corral", 1), ("info", 1.5)])
+    k = weighted(rng, [("random", 2), ("eps", 3), ("ucb", 2), ("counter", 3), ("pmf", 3), ("kwargs", 1), ("corral", 1), ("info", 1.5), ("misguided", 2)])
+    if k == "misguided":
+        # a wrapper class whose capabilities (score) depend on the wrapped instance
+        inner = weighted(rng, [(["eps", {"epsilon": 0.1, "seed": rng.randrange(1, 9)}], 2), (["random", {"seed": rng.randrange(1, 9)}], 1),
+                               (["counter", {"k": 2, "tag": f"m{idx}"}], 2), (["pmf", {"tag": f"mp{idx}"}], 1)])
+        return ["misguided", {"learner": inner, "shifter": rng.choice([0, 1]), "scaler": rng.choice([1, -1])}]
     if k == "info":
         # publishes through CobaContext.learning_info; sometimes fails right after publishing (what it published must not leak)
         return ["info", {"tag": f"i{idx}", "every": 1 + rng.randrange(3), "raise_at": weighted(rng, [(None, 2), (rng.randrange(8), 1)])}]
